@@ -279,3 +279,15 @@ package environment
 //@ closure newEnvironment #5
 //@   property C14
 //@   ensures result == env.UserVars
+
+// ---------------------------------------------------------------------------------------------------------
+// C02: CONFIGURE with nothing to command succeeds at once: the answer of the task manager is waited for only if a
+// request was sent to it (nobody would ever answer otherwise), and a request that was sent is always waited for.
+//@ func (t ConfigureTransition) do(env *Environment) (err error)
+//@   property C02
+//@   ghostvar sent bool = false
+//@   ghostvar waited bool = false
+//@   on send * : assert !sent ; sent = true
+//@   on recv * : assert sent && !waited ; waited = true
+//@   ensures env != nil && !sent ==> err == nil && !waited
+//@   ensures sent ==> waited
